@@ -256,7 +256,11 @@ class SpecMixin:
         if f == "cls_id":
             return mk_int(self.hget(st, "$cls", args[0].z))
         if f == "to_key":
-            return args[0] if args[0].kind == "K" else SV("K", TK(args[0].z))
+            if args[0].kind == "K":
+                return args[0]
+            if args[0].kind == "any":
+                return SV("K", TK(args[0].z))
+            return SV("K", z3.Real("nokey"))     # marker/None: never used
         if f == "to_value":
             return args[0] if args[0].kind == "V" else SV("V", TV(args[0].z))
         if f == "is_none":
